@@ -11,7 +11,8 @@
                  | (sd n val) | (sp n val) | (ss n val) | (sss (n val)*) | (st val) | (scp s) | (self) | (sync)
                  | (read view)
       dv        := none | "str | true | false
-    views       := ( view* )
+    views       := ( group* )       group := ( view* ): the views of one group are read one after the other on one
+                                   fresh element; different groups get different fresh elements
       view      := (startTag) | (list) | (items) | (keys) | (has n) | (in n) | (item n) | (get n) | (getd n)
                  | (attr n) | (attrd n) | (dotget n) | (domkeys) | (domitem n)
                  | (className) | (classList) | (hasClass n) | (styleStr) | (sdot n) | (gstyle n)
@@ -20,7 +21,7 @@
 
   result := ( (outcome*) (chk k obs*)* (seq obs*) )
     outcome: ok | KeyError | unsupported | the observation of a `read`
-    (chk k …): every view read on a *fresh* element after replaying the first k history items
+    (chk k (obs*)*): per group, its views read on a *fresh* element after replaying the first k history items
     (seq …): all views read one after the other on the element that went through the whole history
 -/
 import AHP.Model.Attrs
@@ -184,21 +185,25 @@ def initEl (T : Tables) (tag : Str) (sc : Bool) (attrs : List (Str × Option Str
   if through then (clone T e).1 else e
 
 def runCase (T : Tables) (tag : Str) (sc : Bool) (attrs : List (Str × Option Str)) (through : Bool)
-    (hist : List Item) (views : List View) (chks : List Nat) : Sexp :=
+    (hist : List Item) (groups : List (List View)) (chks : List Nat) : Sexp :=
   let e0 := initEl T tag sc attrs through
   let (outs, eN) := runItems T e0 hist []
   let chk (k : Nat) : Sexp :=
     let ek := (runItems T e0 (hist.take k) []).2
-    .list (sym "chk" :: natAtom k :: views.map (fun v => (readView T ek v).1))
-  .list ([.list outs] ++ chks.map chk ++ [.list (sym "seq" :: seqViews T eN views [])])
+    .list (sym "chk" :: natAtom k :: groups.map (fun g => Sexp.list (seqViews T ek g [])))
+  .list ([.list outs] ++ chks.map chk ++ [.list (sym "seq" :: seqViews T eN groups.flatten [])])
+
+def group? : Sexp → Option (List View)
+  | .list vs => vs.mapM view?
+  | _ => none
 
 def run (payload : String) : String :=
   match Sexp.parse payload with
-  | some (.list [tb, .list [tag, sc, .list attrs, thr], .list hist, .list views, .list chks]) =>
-    match tables? tb, toStr? tag, flag? sc, attrs.mapM pair?, flag? thr, hist.mapM item?, views.mapM view?,
+  | some (.list [tb, .list [tag, sc, .list attrs, thr], .list hist, .list groups, .list chks]) =>
+    match tables? tb, toStr? tag, flag? sc, attrs.mapM pair?, flag? thr, hist.mapM item?, groups.mapM group?,
           chks.mapM toNat? with
-    | some T, some tag, some sc, some attrs, some thr, some hist, some views, some chks =>
-      (runCase T tag sc attrs thr hist views chks).render
+    | some T, some tag, some sc, some attrs, some thr, some hist, some groups, some chks =>
+      (runCase T tag sc attrs thr hist groups chks).render
     | _, _, _, _, _, _, _, _ => "bad-case"
   | _ => "bad-case"
 
